@@ -667,6 +667,8 @@ class SegmentWriter(IndexWriter):
         # tries to be efficient by merging per-doc and terms separately.
         # TODO: fix this!
 
+        from whoosh.reading import IndexReader
+
         schema = self.schema
         if reader.has_deletions():
             docmap = {}
@@ -680,7 +682,13 @@ class SegmentWriter(IndexWriter):
             fieldobj = schema[fieldname]
             coltype = fieldobj.column_type
             if coltype and reader.has_column(fieldname):
-                creader = reader.column_reader(fieldname, coltype)
+                if isinstance(reader, IndexReader):
+                    # (the raw column values - a multi-segment reader has a
+                    # translating reader for each segment inside)
+                    creader = reader.column_reader(fieldname, coltype,
+                                                   translate=False)
+                else:
+                    creader = reader.column_reader(fieldname, coltype)
                 if isinstance(creader, columns.TranslatingColumnReader):
                     creader = creader.raw_column()
                 cols[fieldname] = creader
